@@ -3,22 +3,22 @@
 # Applies the patch to a scratch worktree, runs the pinned suite and the demo there, then runs the check of <ID>
 # from a scratch copy of /verif against that tree.  Everything scratch is removed afterwards.
 id=$1; patch=$(readlink -f $2); demo=$3; tier=${4:-quick}
-wt=/tmp/try_wt_$id; vf=/tmp/try_vf_$id
+tag=${TRY_TAG:-}; wt=/tmp/try_wt_$tag$id; vf=/tmp/try_vf_$tag$id
 git -C /repo worktree remove --force $wt >/dev/null 2>&1; rm -rf $wt $vf
 git -C /repo worktree add --detach $wt HEAD >/dev/null 2>&1 || { echo "worktree failed"; exit 2; }
 if [ -n "$demo" ] && [ -f "$demo" ]; then
-  (cd $wt && PYTHONPATH=$wt PYTHONHASHSEED=0 timeout 600 /venv/bin/python $demo > /tmp/try_demo_clean_$id.log 2>&1); echo "demo on clean tree: rc=$? $(tail -1 /tmp/try_demo_clean_$id.log | cut -c1-100)"
+  (cd $wt && PYTHONPATH=$wt PYTHONHASHSEED=0 timeout 600 /venv/bin/python $demo > /tmp/try_demo_clean_$tag$id.log 2>&1); echo "demo on clean tree: rc=$? $(tail -1 /tmp/try_demo_clean_$tag$id.log | cut -c1-100)"
 fi
 (cd $wt && git apply $patch) || { echo "patch does not apply"; git -C /repo worktree remove --force $wt; exit 2; }
 (cd $wt && /venv/bin/python -m pytest -q -p no:cacheprovider --timeout=900 --continue-on-collection-errors 2>&1 | tail -1)
 if [ -n "$demo" ] && [ -f "$demo" ]; then
-  (cd $wt && PYTHONPATH=$wt PYTHONHASHSEED=0 timeout 600 /venv/bin/python $demo > /tmp/try_demo_mut_$id.log 2>&1); echo "demo on changed tree: rc=$? $(tail -1 /tmp/try_demo_mut_$id.log | cut -c1-100)"
+  (cd $wt && PYTHONPATH=$wt PYTHONHASHSEED=0 timeout 600 /venv/bin/python $demo > /tmp/try_demo_mut_$tag$id.log 2>&1); echo "demo on changed tree: rc=$? $(tail -1 /tmp/try_demo_mut_$tag$id.log | cut -c1-100)"
 fi
 rsync -a --delete --exclude .git --exclude replays /verif/ $vf/
 s=$(date +%s)
-(cd $vf && VERIF_REPO=$wt timeout 3000 ./check $id $tier > /tmp/try_check_$id.log 2>&1); rc=$?
-echo "check $id $tier on changed tree: rc=$rc $(( $(date +%s)-s ))s violations=$(grep -c '^VIOLATION' /tmp/try_check_$id.log) no-input=$(grep -c 'no-failing-input-found' /tmp/try_check_$id.log)"
-grep '^VIOLATION' /tmp/try_check_$id.log | head -3
-f=$(grep -o 'replay=[^ ]*' /tmp/try_check_$id.log | head -1 | cut -d= -f2)
+(cd $vf && VERIF_REPO=$wt timeout 3000 ./check $id $tier > /tmp/try_check_$tag$id.log 2>&1); rc=$?
+echo "check $id $tier on changed tree: rc=$rc $(( $(date +%s)-s ))s violations=$(grep -c '^VIOLATION' /tmp/try_check_$tag$id.log) no-input=$(grep -c 'no-failing-input-found' /tmp/try_check_$tag$id.log)"
+grep '^VIOLATION' /tmp/try_check_$tag$id.log | head -3
+f=$(grep -o 'replay=[^ ]*' /tmp/try_check_$tag$id.log | head -1 | cut -d= -f2)
 [ -n "$f" ] && [ -f "$f" ] && { mkdir -p /tmp/try_replays; cp $f /tmp/try_replays/$id-$(basename $f); echo "first replay saved: /tmp/try_replays/$id-$(basename $f)"; }
 git -C /repo worktree remove --force $wt >/dev/null 2>&1; rm -rf $wt $vf
